@@ -57,6 +57,7 @@ type kek struct {
 	rng        *hlib.Rng
 	nextLen    int
 	table      map[string][]byte // wrapped → DEK
+	order      []string          // the table's keys in insertion order
 	// log since the last reset
 	encCalls, decCalls, ctxCalls int
 	encDEK, encOut               []byte
@@ -70,6 +71,13 @@ func newKEK(rng *hlib.Rng) *kek { return &kek{rng: rng, table: map[string][]byte
 func (k *kek) reset() {
 	k.encCalls, k.decCalls, k.ctxCalls = 0, 0, 0
 	k.encDEK, k.encOut, k.decIn, k.decOut, k.decOK, k.badAD = nil, nil, nil, nil, false, false
+}
+
+func (k *kek) put(wrapped, dek []byte) {
+	if _, dup := k.table[string(wrapped)]; !dup {
+		k.order = append(k.order, string(wrapped))
+	}
+	k.table[string(wrapped)] = cp(dek)
 }
 
 func cp(b []byte) []byte { return append([]byte{}, b...) }
@@ -93,7 +101,7 @@ func (k *kek) Encrypt(pt, ad []byte) ([]byte, error) {
 				break
 			}
 		}
-		k.table[string(out)] = cp(pt)
+		k.put(out, pt)
 	}
 	k.encOut = cp(out)
 	return cp(out), nil
@@ -473,7 +481,8 @@ func kmsCase(o *hlib.Out, rng *hlib.Rng, mut bool, ep int, s pspec, tmpl *tinkpb
 				o.Violate("KMS envelope Decrypt panicked (%s): %s", desc, p)
 				continue
 			}
-			if e2 != nil || !bytes.Equal(back, pt) {
+			rtOK := e2 == nil && bytes.Equal(back, pt)
+			if !rtOK {
 				o.Violate("KMS envelope round trip: Encrypt succeeded with an encrypted DEK of %d bytes but Decrypt of its output failed (%s, |pt|=%d |ad|=%d |ct|=%d): %v",
 					len(wrapped), desc, len(pt), len(ad), len(ct), e2)
 			}
@@ -488,10 +497,10 @@ func kmsCase(o *hlib.Out, rng *hlib.Rng, mut bool, ep int, s pspec, tmpl *tinkpb
 			if !bytes.Equal(ct, saved) {
 				o.Violate("KMS envelope Decrypt modified the caller's ciphertext buffer (%s)", desc)
 			}
-			if b, e := env.dec(ct, ad); e != nil || !bytes.Equal(b, pt) {
+			if b, e := env.dec(ct, ad); rtOK && (e != nil || !bytes.Equal(b, pt)) {
 				o.Violate("KMS envelope: second Decrypt of the same ciphertext buffer failed (%s, |encrypted DEK|=%d)", desc, len(wrapped))
 			}
-			if len(ad) == 0 {
+			if len(ad) == 0 && rtOK {
 				other := []byte{}
 				if ad != nil {
 					other = nil
@@ -527,7 +536,7 @@ func kmsCase(o *hlib.Out, rng *hlib.Rng, mut bool, ep int, s pspec, tmpl *tinkpb
 		if wans != "" {
 			w2 = hlib.FromTok(wans[3:])
 		} else if k.inner == nil {
-			k.table[string(w2)] = dek2
+			k.put(w2, dek2)
 		}
 		env2 := envelope(w2, payload2)
 		k.reset()
@@ -618,7 +627,7 @@ func kmsMutations(o *hlib.Out, rng *hlib.Rng, env *envAEAD, k *kek, s pspec, des
 	}
 	// the encrypted DEK of another envelope of the same KMS in front of this payload
 	if k.inner == nil {
-		for w := range k.table {
+		for _, w := range k.order {
 			if w != string(envl[4:4+L]) && len(w) > 0 && len(w) <= 4096 {
 				ms = append(ms, mu{"other-dek", envelope([]byte(w), envl[4+L:])})
 				break
@@ -689,8 +698,13 @@ func runKMS(o *hlib.Out, rng *hlib.Rng, mut bool) {
 	registry.RegisterKMSClient(stubClient)
 	lens := []int{0, 1, 2, 28, 4095, 4096, 4097, 5000}
 	n := 0
+	// quick-tier sizes: the round-trip mode (C01) has room for more than the mutation mode (C02)
+	reps, nReal, nFake := hlib.N(3, 12), hlib.N(100, 1000), hlib.N(20, 200)
+	if mut {
+		reps, nReal, nFake = hlib.N(1, 6), hlib.N(40, 500), hlib.N(10, 100)
+	}
 	// 1. stub KMS: every wrapped-DEK length × every entry point × every DEK key type
-	for rep := 0; rep < hlib.N(1, 10); rep++ {
+	for rep := 0; rep < reps; rep++ {
 		for _, fam := range dekFams {
 			for ep := 0; ep < 3; ep++ {
 				for li, L := range lens {
@@ -710,7 +724,7 @@ func runKMS(o *hlib.Out, rng *hlib.Rng, mut bool) {
 		kmsCase(o, rng, mut, i%3, pt.s, pt.t, newKEK(rng), []int{28 + i, 4096}, 2)
 	}
 	// 3. a real AEAD as KEK (every AEAD type of this harness, and the fake KMS's AEAD), spied on by the stub
-	for i := 0; i < hlib.N(40, 800); i++ {
+	for i := 0; i < nReal; i++ {
 		o.Case()
 		k := newKEK(rng)
 		if i%8 == 7 {
@@ -742,7 +756,7 @@ func runKMS(o *hlib.Out, rng *hlib.Rng, mut bool) {
 		panic(err)
 	}
 	registry.RegisterKMSClient(fc)
-	for i := 0; i < hlib.N(10, 200); i++ {
+	for i := 0; i < nFake; i++ {
 		o.Case()
 		fakeKMSCase(o, rng, randSpec(rng, dekFams[i%len(dekFams)], 2))
 	}
